@@ -19,7 +19,8 @@ CFG = {
             "reader (known header, missing parent/grandparent, wrong number); VerifyHeaders on batches of 1..40 headers with injected faults under GOMAXPROCS 1,2,3,4,8,16 "
             "with and without jitter, compared with one-by-one VerifyHeader+insert; VerifyUncles on generated block trees (side blocks at depth 1..9, duplicates, ancestors, "
             "invalid, far-future, orphan, exemption-keyed uncles, 0..3 uncles, shallow histories, heights around HF5 and 15000). Non-trivial = a case the real code did not panic on.",
-    "tie": {"params fork maps / difficulty, gas-limit, extra-data constants": "gen (value dump of package params)",
+    "tie": {"params.isForked, (*ChainConfig).IsHF / GetHF (mini-translator)": "translated (go/ssa -> Lean on every run; isHF_code_is_model) + corr",
+            "params fork maps / difficulty, gas-limit, extra-data constants": "gen (value dump of package params)",
             "aquahash.maxUncles, maxUnclesHF5, allowedFutureBlockTime": "gen (value dump of package aquahash)",
             "calcDifficultyHFX/Starting/HF1/Grandparent": "corr (aquahash.CalcDifficulty vs Model.calcDifficultyHFX) + Spec judgement (difficultySpec)",
             "(*Aquahash).verifyHeader": "corr (overlay accessor vs Model.verifyHeader) + Spec judgement (headerRule)",
